@@ -2207,6 +2207,52 @@ def check_revert(prog: Program, res: Result) -> None:
     fi0 = canon_iso(prog, "_revert_state")
     fn = unroll_literal_loops(fi0.node)
     fi = FuncInfo(fi0.qual, fi0.module, fn, fi0.cls)
+    # R-REVERT-TOTAL: the removed atom is put back on every path
+    res.rule("R-REVERT-TOTAL", "the atom removed from the mapping is put "
+             "back into the frontier or the external set of its side on "
+             "every path: no guard on whether it has neighbours at all "
+             "(an isolated atom must become external again, otherwise it is "
+             "never offered as a candidate after backtracking)")
+    params_ = fi.params()
+    for s_, atomp in (("1", params_[0]), ("2", params_[1])):
+        adds = [c for c in ast.walk(fn) if isinstance(c, ast.Call)
+                and isinstance(c.func, ast.Attribute) and c.func.attr == "add"
+                and norm(c.func.value) in (f"frontier{s_}", f"external{s_}")
+                and c.args and norm(c.args[0]) == atomp]
+        inst = f"_revert_state side {s_}: the removed atom is always put back"
+        if not adds:
+            res.unrecognised("R-REVERT-TOTAL", inst, fi.loc(),
+                             f"no frontier{s_} / external{s_}.add({atomp})")
+            continue
+        # names that stand for the neighbourhood of the removed atom
+        nb_names = {f"g{s_}_nbrhd[{atomp}]"}
+        for a in ast.walk(fn):
+            if isinstance(a, ast.Assign) and len(a.targets) == 1 and \
+                    isinstance(a.targets[0], ast.Name) and norm(
+                    a.value) in (f"g{s_}_nbrhd[{atomp}]",):
+                nb_names.add(a.targets[0].id)
+        bad_guard = None
+        for c in adds:
+            for a in ancestors(c):
+                if isinstance(a, ast.If):
+                    t = norm(a.test)
+                    core = t[4:] if t.startswith("not ") else t
+                    if core in nb_names or core in {f"len({n_})" for n_ in
+                                                    nb_names} or any(
+                            re.fullmatch(rf"len\({re.escape(n_)}\) (==|!=|>) 0",
+                                         core) for n_ in nb_names):
+                        bad_guard = (c, t)
+        if bad_guard:
+            c, t = bad_guard
+            res.bad("R-REVERT-TOTAL", f"_revert_state side {s_}: removed atom "
+                    "only put back if it has neighbours", fi.loc(c),
+                    f"{inst}: `{norm(c)}` only happens under `{t}`; an atom "
+                    "without neighbours is neither frontier nor external "
+                    "after backtracking and is never offered again: "
+                    "automorphisms of graphs with isolated atoms are lost",
+                    instance=inst)
+        else:
+            res.ok("R-REVERT-TOTAL", inst, fi.loc(adds[0]))
     sides = 0
     for loop in ast.walk(fn):
         if not isinstance(loop, ast.For):
